@@ -58,7 +58,7 @@ def per_part(prop, family, module, func, tier, timeout=None, extra_env=None, exp
         env.update(extra_env or {})
         tag = ",".join(f"{k[3:].lower()}={v}" for k, v in (extra_env or {}).items())
         out.append(Obl(f"{family}[{pre!r}+{n}{'+' + repr(suf) if suf else ''}{',' + tag if tag else ''}]", module, func, env=env,
-                       timeout=timeout or (170 if tier == "quick" else 1200), path_timeout=120,
+                       timeout=timeout or (170 if tier == "quick" else 600), path_timeout=120,
                        family=family, expect=expect, tier=tier,
                        bound=f"s = {pre!r} + t + {suf!r}, every str t with len(t) <= {n} (all code points)"))
     return out
